@@ -2,8 +2,8 @@ CFG = {'assumptions': ["64*len(words) < 2^31 (Go's int32 positions cannot overfl
                  'statement; the int32 theorems say what happens at that boundary: Rank64 still answers on every '
                  'int32 position of a larger bitmap, Rank128 panics on positions >= 2^31-64)',
                  'every word is in [0,2^64) (words_ok)',
-                 'bitmap.Rank/any, bitmap.Rank/rle: any int32 position (outside the bitmap the expected observation is a '
-                 'panic); bitmap.Rank/laws: 0 <= i <= j < 64*len(words); bitmap.Rank/concat: 0 <= i < 64*(len(a)+len(b)); '
+                 'bitmap.Rank/any, bitmap.Rank/rle: any int32 position; the specification speaks for positions inside the '
+                 'bitmap only - outside (a panic as of now) just model = implementation is compared; bitmap.Rank/laws: 0 <= i <= j < 64*len(words); bitmap.Rank/concat: 0 <= i < 64*(len(a)+len(b)); '
                  'bitmap.Rank/history: every step names an existing bitmap / word'],
  'files': ['bitmap/rank.go', 'bitmap/mask.go'],
  'go': {'bitmap.IndexRank128': 'bitmap.IndexRank128',
